@@ -18,9 +18,9 @@ EXIT_HELD, EXIT_VIOLATION, EXIT_UNDECIDED, EXIT_FAULT = 0, 1, 2, 3
 
 def _unit_worker(job):
     """runs in a forked worker: one (contract, shape) unit"""
-    prop, modname, key, shape, timeout_ms, canary = job
+    prop, modname, key, shape, timeout_ms, canary, mode = job
     t0 = time.time()
-    out = {"key": key, "shape": shape, "obligations": [], "unsupported": [], "error": None, "paths": 0, "normal_paths": 0, "raise_paths": 0, "functions": {}, "notes": [], "time": 0.0}
+    out = {"key": key, "shape": shape, "mode": mode, "obligations": [], "unsupported": [], "error": None, "paths": 0, "normal_paths": 0, "raise_paths": 0, "functions": {}, "notes": [], "time": 0.0}
     try:
         sys.path.insert(0, VERIF)
         from pyvc.source import Repo
@@ -32,7 +32,7 @@ def _unit_worker(job):
         reg = Registry(repo, [modname])
         c = S.CONTRACTS[key]
         v = Verifier(repo, reg, timeout_ms)
-        res = v.run(c, shape=shape, prop=prop)
+        res = v.run(c, shape=shape, prop=prop, mode=mode)
         discharge(res, timeout_ms)
         out["paths"], out["normal_paths"], out["raise_paths"] = res.paths, res.normal_paths, res.raise_paths
         out["unsupported"] = list(res.unsupported)
@@ -90,15 +90,16 @@ def plan_units(prop, modname, tier):
         if c.target.startswith("iface:"):
             continue
         if getattr(c, "unbounded", True):
-            units.append((key, None))
+            for sh in getattr(c, "proof_shapes", [None]):
+                units.append((key, sh, "unbounded"))
         for sh in shapes_for(c, tier):
-            units.append((key, sh))
+            units.append((key, sh, "bounded"))
     return units
 
 
 def run_units(prop, modname, units, tier, jobs=None):
     timeout_ms = 20000 if tier == "quick" else 120000
-    jobs_list = [(prop, modname, key, shape, timeout_ms, True) for key, shape in units]
+    jobs_list = [(prop, modname, key, shape, timeout_ms, True, mode) for key, shape, mode in units]
     n = jobs or min(16, max(1, len(jobs_list)))
     ctx = mp.get_context("fork")
     with ctx.Pool(n) as pool:
